@@ -586,6 +586,14 @@ func genC07(r *hlib.Rng, n int) In {
 					f := hlib.Pick(r, late...)
 					fo.Fault = &f
 				}
+				if (len(in.Ops)+j)%2 == 1 {
+					// the failing statement takes the whole transaction with it (SQLite rolls back on its own): the code's tx.Rollback()
+					// then fails and the rollback callbacks are NOT run - the trees keep their advanced in-memory state - and the driver
+					// retries on the same instance. No random draw is added.
+					ff := *fo.Fault
+					ff.RB = true
+					fo.Fault = &ff
+				}
 				in.Ops = append(in.Ops, fo)
 				if r.Intn(5) == 0 {
 					in.Ops = append(in.Ops, Op{K: "restart"})
